@@ -326,6 +326,26 @@ func genC03(t *rapid.T, tier string) interface{} {
 			p.Gen.Accounts[i].Balance = rapid.Int64Range(100000, 50000000).Draw(t, "fund")
 		}
 	}
+	// 1 history in 4: one account carries ANOTHER key's public key in state, and the holder of that key signs for it
+	// without putting a key into the signature (so the stored one is looked up)
+	if len(p.Gen.Accounts) >= 2 && rapid.IntRange(0, 3).Draw(t, "foreignstored") == 0 {
+		vi := rapid.IntRange(0, len(p.Gen.Accounts)-1).Draw(t, "victimacc")
+		att := rapid.IntRange(0, simPoolSize-1).Draw(t, "attackerkey")
+		if att != p.Gen.Accounts[vi].Key {
+			p.Gen.Accounts[vi].PubOf, p.Gen.Accounts[vi].NoPub = att+1, false
+			if p.Gen.Accounts[vi].Balance < 100000 {
+				p.Gen.Accounts[vi].Balance = 5000000
+			}
+			victim := p.Gen.Accounts[vi].Key
+			for bi := range p.Blocks {
+				if rapid.Bool().Draw(t, "attackhere") {
+					tx := hTx{Kind: rapid.SampledFrom([]string{"send", "send", "unstake", "stake"}).Draw(t, "attackkind"), From: victim, To: att, Amt: 1000,
+						SignWith: att, KeyInSig: rapid.IntRange(0, 3).Draw(t, "attackkeyinsig") == 0, Entropy: int64(4400 + bi), Mode: rapid.SampledFrom([]string{"", "check"}).Draw(t, "attackmode")}
+					p.Blocks[bi].Txs = append(p.Blocks[bi].Txs, tx)
+				}
+			}
+		}
+	}
 	for k := 0; k < simPoolSize; k++ {
 		if !have[k] && rapid.IntRange(0, 5).Draw(t, "addacc") != 0 {
 			p.Gen.Accounts = append(p.Gen.Accounts, hGenAcc{Key: k, Balance: rapid.Int64Range(100000, 50000000).Draw(t, "fund2"), NoPub: rapid.IntRange(0, 3).Draw(t, "nopub2") == 0})
